@@ -247,9 +247,9 @@ class Session:
 def judge(corr, suite, key, sc, res, note=""):
     """book one lock-step run: model-vs-code disagreement and/or property violation"""
     corr.count(suite)
-    if res["post"] == "FAIL":
+    if res["post"].startswith("FAIL"):
         corr.violate(key, sc, "post-condition of the property on the specification bus",
-                     {"result": res["result"], "commands": res["n"], "detail": res["detail"]},
+                     {"result": res["result"], "commands": res["n"], "detail": res["detail"], "post": res["post"]},
                      note or "the real sequence, run against the Lean specification bus, contradicts the property")
     if not res["agree"]:
         corr.disagree(suite, sc, res["detail"], res["result"])
@@ -268,4 +268,4 @@ def replay_scenario(sc):
     print("model alone   :", model)
     if "dump" in res:
         print("final bus     :", res["dump"])
-    return res["post"] == "FAIL" or not res["agree"]
+    return res["post"].startswith("FAIL") or not res["agree"]
